@@ -1,0 +1,28 @@
+//go:build verif
+
+package multisigsc
+
+import (
+	c_state "0chain.net/chaincore/chain/state"
+)
+
+// Thin wrappers for the verification harness (multisig proposals, C21). No logic.
+
+// VerifContractsProposalJSON returns the stored proposal of a wallet as JSON (proposal.Encode);
+// an absent proposal encodes as the empty proposal.
+func VerifContractsProposalJSON(clientID, proposalID string, balances c_state.StateContextI) ([]byte, error) {
+	p, err := MultiSigSmartContract{}.getProposal(proposalRef{ClientID: clientID, ProposalID: proposalID}, balances)
+	if err != nil {
+		return nil, err
+	}
+	return p.Encode(), nil
+}
+
+// VerifContractsQueueJSON returns the stored expiration queue as JSON.
+func VerifContractsQueueJSON(balances c_state.StateContextI) ([]byte, error) {
+	q, err := MultiSigSmartContract{}.getOrCreateExpirationQueue(balances)
+	if err != nil {
+		return nil, err
+	}
+	return q.Encode(), nil
+}
